@@ -396,6 +396,7 @@ func (p *parser) quant(forall bool) Expr {
 // ---------------------------------------------------------------- contract files
 
 type Clause struct {
+	owner *FuncContract
 	Pkg  string
 	Tags []string
 	Expr Expr
@@ -458,8 +459,10 @@ type FuncContract struct {
 	Trusted  bool // contract assumed, body not verified
 	Pure     bool // result is a function of arguments (and read heap)
 	Safe     bool // prove absence of run-time panics too
+	ProtocolOnly []string // properties under which only tagged (protocol) obligations of this function are generated
 	Uses     []string // named axiom groups this function's proof may use
 	Reveals  []string // opaque predicates whose definition this function's proof may use
+	props    map[string]bool
 	NoFrame  bool // no frame promise: callers havoc everything; no frame obligations
 	Decreases *Clause
 	Lets     []Param // let name = expr (Type holds the expression source)
@@ -491,7 +494,7 @@ func NewContractSet() *ContractSet {
 }
 
 var clauseKeywords = map[string]bool{"pred": true, "func": true, "requires": true, "ensures": true, "loop": true,
-	"modifies": true, "ufunc": true, "axiom": true, "lemma": true, "noframe": true, "opaque": true, "reveal": true, "uses": true, "protect": true, "group": true, "include": true, "end": true, "trusted": true, "pure": true, "safe": true, "decreases": true, "let": true, "ghost": true, "init": true, "call": true, "package": true}
+	"modifies": true, "ufunc": true, "axiom": true, "lemma": true, "noframe": true, "opaque": true, "reveal": true, "uses": true, "protect": true, "protocol-only": true, "group": true, "include": true, "end": true, "trusted": true, "pure": true, "safe": true, "decreases": true, "let": true, "ghost": true, "init": true, "call": true, "package": true}
 
 // ParseContractFile reads the //@ lines of one file.
 func (cs *ContractSet) ParseContractFile(path, pkgPath string) error {
@@ -700,6 +703,8 @@ func (cs *ContractSet) ParseContractFile(path, pkgPath string) error {
 				cur.Trusted = true
 			case "noframe":
 				cur.NoFrame = true
+			case "protocol-only":
+				cur.ProtocolOnly = append(cur.ProtocolOnly, strings.Fields(rest)...)
 			case "uses":
 				cur.Uses = append(cur.Uses, strings.Fields(rest)...)
 			case "reveal":
@@ -834,12 +839,59 @@ func hasTagFor(tags []string, prop string) bool {
 	return false
 }
 
-// clauseActive: untagged clauses belong to every property; tagged ones to the named properties.
+// clauseActive: tagged clauses belong to the named properties.  Untagged (support) clauses belong to the properties
+// the owning contract has tagged clauses for, or to every property when the contract has no tagged clause at all.
 func clauseActive(c Clause, prop string) bool {
-	if len(c.Tags) == 0 || prop == "" {
+	if prop == "" {
 		return true
 	}
+	if len(c.Tags) == 0 {
+		if c.owner == nil || len(c.owner.props) == 0 {
+			return true
+		}
+		return c.owner.props[prop]
+	}
 	return hasTagFor(c.Tags, prop)
+}
+
+// finalize records, for every clause, the contract it belongs to and the properties that contract is tagged for.
+func (cs *ContractSet) finalize() {
+	for _, fc := range cs.Funcs {
+		fc.props = map[string]bool{}
+		var all []*Clause
+		add := func(list []Clause) {
+			for i := range list {
+				all = append(all, &list[i])
+			}
+		}
+		add(fc.Requires)
+		add(fc.Ensures)
+		add(fc.Modifies)
+		for i := range fc.CallAsserts {
+			all = append(all, &fc.CallAsserts[i].Clause)
+		}
+		for _, l := range fc.Loops {
+			add(l.Invariants)
+			add(l.Modifies)
+			add(l.ReturnEnsures)
+			if l.Decreases != nil {
+				all = append(all, l.Decreases)
+			}
+		}
+		if fc.Decreases != nil {
+			all = append(all, fc.Decreases)
+		}
+		for _, c := range all {
+			c.owner = fc
+			for _, t := range c.Tags {
+				p := t
+				if k := strings.Index(t, "."); k >= 0 {
+					p = t[:k]
+				}
+				fc.props[p] = true
+			}
+		}
+	}
 }
 
 // SplitConj splits a clause into conjuncts that can be proved separately:
